@@ -8,6 +8,7 @@ Helper lemmas: Lemmas/C10*.lean.  The source facts the iterator model depends on
 collections/treemap into Gen/C10.lean.
 -/
 import Fatchoy.Lemmas.C10Iter
+import Fatchoy.Lemmas.C10MultiVisit
 namespace Fatchoy.C10
 
 /-- the regenerated source facts (Clear bumps the version; the ascending Remove re-targets its cursor; both
@@ -154,6 +155,104 @@ theorem C10_version (P : Params) (hP : Valid P) (m : Map) (hm : MapOK m) (op : O
     (step P m op).1.version = m.version + (if structural (toList m.root) op then 1 else 0) :=
   step_version P hP m hm op
 
+/-! ### (D') several live iterators at once (Model/C10Multi.lean): histories whose steps are a map operation, the
+creation of an iterator of any kind in a slot, `HasNext` / `Next` / `Remove` on the iterator of a slot — any
+interleaving, any number of slots.  X runs such histories through `mstep` (Drv/C10.lean). -/
+
+/-- Refinement is not disturbed by iterators, failed or not: after ANY multi-iterator history the listing of the
+tree is the sorted association list after the successful changes of the history (`changes`: the map operations, and
+`Remove(k)` for every iterator `Remove` that succeeded on a node holding `k`), it is sorted with the right size
+field, and the tree is red-black. -/
+theorem C10_multi_refines (P : Params) (hP : Valid P) (ops : List MOp) :
+    let st := (mrun P MState.empty ops).1
+    toList st.m.root = (specRun [] (changes P MState.empty ops)).1 ∧ MapOK st.m ∧ RB st.m.root := by
+  intro st
+  obtain ⟨h1, h2, h3⟩ := mrun_inv P hP ops MState.empty MInv_empty
+  exact ⟨h2, h1.1, h3 RB_nil⟩
+
+/-- in the middle of ANY multi-iterator history a map operation answers as the specification does -/
+theorem C10_multi_step_refines (P : Params) (hP : Valid P) (pre : List MOp) (op : Op) :
+    let st := (mrun P MState.empty pre).1
+    (mstep P st (.base op)).2 = .base (specStep (toList st.m.root) op).2 := by
+  intro st
+  have h0 := (mrun_inv P hP pre MState.empty MInv_empty).1
+  rw [mstep_base, (step_refines P st.m op h0.1).1]
+
+/-- Fail-fast with several live iterators: take the iterator `it` of slot `s` at any point of any history; if the
+continuation `ops` does not put a new iterator into that slot and contains a structural change made by anybody
+else (`foreignRun`: a Put of a new key / Remove of a present key / Clear on the map, or a successful `Remove` of
+ANOTHER slot's iterator), then afterwards `Next` and `Remove` on slot `s` do what the code does on a version
+mismatch — panic "concurrent modification" ("no such element" / "illegal state" when it had nothing to return /
+remove anyway) — and leave map and iterators untouched: no stale or repeated entry is ever returned. -/
+theorem C10_multi_foreign_detected (P : Params) (hP : Valid P) (pre ops : List MOp) (s : Nat) (it : Iter)
+    (hg : getIt (mrun P MState.empty pre).1.iters s = some it) (hc : ops.any (recreates s) = false)
+    (hf : foreignRun P s (mrun P MState.empty pre).1 ops = true) :
+    let st := (mrun P (mrun P MState.empty pre).1 ops).1
+    (mstep P st (.next s) = (st, .err .comod) ∨ mstep P st (.next s) = (st, .err .noSuchElement)) ∧
+    (mstep P st (.iremove s) = (st, .err .comod) ∨ mstep P st (.iremove s) = (st, .err .illegalState)) := by
+  intro st
+  have h0 := (mrun_inv P hP pre MState.empty MInv_empty).1
+  obtain ⟨it', g, _, _, b, _⟩ := mrun_slot P hP ops _ h0 s it hg hc
+  have hlt := b hf
+  have g' : getIt st.iters s = some it' := g
+  obtain ⟨n1, n2⟩ := stale_refused P st.m it' (by simp only [st]; omega)
+  constructor
+  · rcases n1 with n | n
+    · left; simp only [mstep, g', n]
+    · right; simp only [mstep, g', n]
+  · rcases n2 with n | n
+    · left; simp only [mstep, g', n]
+    · right; simp only [mstep, g', n]
+
+/-- An iterator's own `Remove` never invalidates it, and reads by others are not changes: take a fresh iterator of
+slot `s` (expected version = the map's, e.g. just created) at any point of any history; over ANY continuation that
+does not re-create the slot and contains no structural change by anybody else (its own `Next` / `Remove`, value-only
+Puts, queries, creation of / `HasNext` / `Next` on / failed `Remove` of other iterators — in any number and order)
+* the keys it had to visit at the start, in its direction (`todo`: the listing from its cursor on, ascending, or
+  downwards for the descending kinds), are exactly the keys its `Next` calls returned during the continuation, in
+  that order, followed by what it has still to visit in the listing as it is now: nothing is skipped, repeated or
+  out of order, whatever it removed itself; `HasNext` is false exactly when nothing is left;
+* it stays fresh and positioned (`PosOK`: its cursor is the neighbour, in its direction, of the entry it returned
+  last, in the CURRENT listing); `Next` then returns the entry under the cursor, an entry of the map, or panics "no
+  such element" exactly at the end; `Remove` succeeds or panics "illegal state" — never "concurrent modification". -/
+theorem C10_multi_own_remove_ok (P : Params) (hP : Valid P) (pre ops : List MOp) (s : Nat) (it : Iter)
+    (hg : getIt (mrun P MState.empty pre).1.iters s = some it)
+    (hv : it.expVer = (mrun P MState.empty pre).1.m.version) (hc : ops.any (recreates s) = false)
+    (hf : foreignRun P s (mrun P MState.empty pre).1 ops = false) :
+    let st0 := (mrun P MState.empty pre).1
+    let st := (mrun P st0 ops).1
+    ∃ it', getIt st.iters s = some it' ∧ it'.kind = it.kind ∧ it'.expVer = st.m.version ∧
+      todo (toList st0.m.root) it = returnedBy P s st0 ops ++ todo (toList st.m.root) it' ∧
+      (iterHasNext it' = false ↔ todo (toList st.m.root) it' = []) ∧
+      PosOK (toList st.m.root) it' ∧
+      ((it'.next = none ∧ (mstep P st (.next s)).2 = .err .noSuchElement) ∨
+        ∃ k v, it'.next = some k ∧ (k, v) ∈ toList st.m.root ∧ (mstep P st (.next s)).2 = .entry it.kind (k, v)) ∧
+      ((it'.last = none ∧ (mstep P st (.iremove s)).2 = .err .illegalState) ∨
+        (mstep P st (.iremove s)).2 = .removed) := by
+  intro st0 st
+  have h0 := (mrun_inv P hP pre MState.empty MInv_empty).1
+  have h1 : MInv st := (mrun_inv P hP ops _ h0).1
+  obtain ⟨it', g, hk, _, _, c⟩ := mrun_slot P hP ops _ h0 s it hg hc
+  obtain ⟨it2, g2, htodo⟩ := mrun_todo P hP ops _ h0 s it hg hv hc hf
+  rw [g] at g2; cases g2
+  have hfresh : it'.expVer = st.m.version := c hf hv
+  have g' : getIt st.iters s = some it' := g
+  have hpos := (h1.2 s it' g').2 hfresh
+  refine ⟨it', g', hk, hfresh, htodo, todo_nil_iff h1.1.1 hpos, hpos, ?_, ?_⟩
+  · rcases fresh_next st.m h1.1 it' hfresh hpos with ⟨a, b⟩ | ⟨it2, k, v, a, b, c, _⟩
+    · left; exact ⟨a, by simp only [mstep, g', b]⟩
+    · right; exact ⟨k, v, b, c, by simp only [mstep, g', a, hk]⟩
+  · rcases fresh_remove P hP st.m h1.1 it' hfresh hpos with ⟨a, b⟩ | ⟨k, it2, _, b, _⟩
+    · left; exact ⟨a, by simp only [mstep, g', b]⟩
+    · right; simp only [mstep, g', b]
+
+/-- a newly created iterator has the whole listing to visit, in its direction -/
+theorem C10_multi_todo_new (P : Params) (hP : Valid P) (pre : List MOp) (kind : IterKind) :
+    let m := (mrun P MState.empty pre).1.m
+    todo (toList m.root) (iterNew m kind) = (visitOrder kind (toList m.root)).map (·.1) := by
+  intro m
+  exact todo_iterNew m kind (mrun_inv P hP pre MState.empty MInv_empty).1.1.1
+
 /-! ### non-vacuity (tests on samples, labelled as such): a history with replacement, removal of a node with
 two children, a deletion fix-up, Clear, neighbour queries with absent keys -/
 
@@ -204,6 +303,46 @@ example : (run2 sampleParams Map.empty
     [.visited [(1, 10), (2, 20), (3, 30)] none, .base (.nats [1, 3, 4, 5]), .base (.prev none),
      .visited [(5, 50), (4, 40), (3, 30), (2, 22), (1, 10)] none, .base (.entries [(4, 40), (5, 50)]),
      .base (.int 2)] := by
+  decide
+
+/-! ### non-vacuity of the multi-iterator theorems (tests on samples) -/
+
+def multiPre : List MOp :=
+  [.base (.put 2 20), .base (.put 1 10), .base (.put 3 30), .create 0 .entry, .create 1 .key, .next 0, .next 1]
+
+/-- two ascending iterators, one removes, the other then fails fast while the remover goes on; a value-only Put
+in between disturbs nobody (test on a sample) -/
+example : (mrun sampleParams MState.empty
+      (multiPre ++ [.base (.put 3 33), .next 1, .iremove 0, .next 1, .iremove 1, .hasNext 1, .next 0, .iremove 0,
+        .next 0, .hasNext 0, .next 0, .base .inOrder])).2.drop 3 =
+    [.created, .created, .entry .entry (1, 10), .entry .key (1, 10), .base (.prev (some 30)), .entry .key (2, 20),
+     .removed, .err .comod, .err .comod, .has true, .entry .entry (2, 20), .removed, .entry .entry (3, 33),
+     .has false, .err .noSuchElement, .base (.entries [(3, 33)])] := by
+  decide
+
+/-- the hypotheses of `C10_multi_foreign_detected` / `C10_multi_own_remove_ok_partial` on that sample: slot 1 sees a
+foreign change (the Remove through slot 0), slot 0 does not (its own Remove, the reads of slot 1, a value-only Put) -/
+example : (getIt (mrun sampleParams MState.empty multiPre).1.iters 1).isSome = true ∧
+    foreignRun sampleParams 1 (mrun sampleParams MState.empty multiPre).1 [.base (.put 3 33), .next 1, .iremove 0] = true ∧
+    foreignRun sampleParams 0 (mrun sampleParams MState.empty multiPre).1
+      [.base (.put 3 33), .next 1, .iremove 0, .next 1, .next 0, .iremove 0] = false ∧
+    (specRun [] (changes sampleParams MState.empty (multiPre ++ [.iremove 0, .iremove 1, .iremove 0]))).1 =
+      [(2, 20), (3, 30)] := by
+  decide
+
+/-- two read-only iterators in opposite directions, interleaved, both complete (test on a sample) -/
+example : (mrun sampleParams MState.empty
+      [.base (.put 2 20), .base (.put 1 10), .base (.put 3 30), .create 0 .value, .create 1 .descEntry,
+       .next 0, .next 1, .next 1, .next 0, .hasNext 0, .next 1, .next 0, .hasNext 0, .hasNext 1, .next 1]).2.drop 5 =
+    [.entry .value (1, 10), .entry .descEntry (3, 30), .entry .descEntry (2, 20), .entry .value (2, 20), .has true,
+     .entry .descEntry (1, 10), .entry .value (3, 30), .has false, .has false, .err .noSuchElement] := by
+  decide
+/-- `todo` / `returnedBy` on that sample: slot 0 (ascending, removing 1 and 2 itself) had 1, 2, 3 to visit and
+returned 1, 2, 3 -/
+example : todo (toList (mrun sampleParams MState.empty (multiPre.take 4)).1.m.root)
+      (iterNew (mrun sampleParams MState.empty (multiPre.take 4)).1.m .entry) = [1, 2, 3] ∧
+    returnedBy sampleParams 0 (mrun sampleParams MState.empty (multiPre.take 4)).1
+      [.create 1 .key, .next 0, .next 1, .iremove 0, .next 1, .next 0, .iremove 0, .next 0, .next 0] = [1, 2, 3] := by
   decide
 
 end Fatchoy.C10
